@@ -23,7 +23,10 @@ RULE = (
     "real `python -m pytest --inline-snapshot=F` session in a directory holding the same files: the changed "
     "files must be identical across the three; run_inline's reported_categories must equal the category "
     "sections of a real `--inline-snapshot=report,F` session for create/fix/trim (update only when the real "
-    "session shows an update diff, because the plugin hides empty diffs). non-trivial = >= 2 pending "
+    "session shows an update diff, because the plugin hides empty diffs). helper_expectations: a user's test that "
+    "calls Example(...).run_inline(flags, reported_categories=snapshot(X) / changed_files=snapshot(Y)) inside an "
+    "ordinary session without flags: a wrong X / Y must fail that test, a right one must not, whatever flags the "
+    "example itself runs with. non-trivial = >= 2 pending "
     "categories, or a raising test, or a value outside the builtins."
 )
 ASSUMPTIONS = ["the three drivers get byte-identical files; the real session runs without pyproject.toml like Example does"]
@@ -197,5 +200,65 @@ def _diff(a, b, na, nb):
     return "\n".join(out)[:3000]
 
 
-ARMS = [HypArm("three_way", lambda tier: _case(tier), check, signature=signature,
+# ----------------------------------------------------------------------------- expectations of the helpers
+
+INNER = {
+    "fix": ("def test_a():\n    assert 1 == snapshot(2)\n", ["fix"]),
+    "create": ("def test_a():\n    assert 1 == snapshot()\n", ["create"]),
+    "update": ("def test_a():\n    assert 1 == snapshot(0+1)\n", ["update"]),
+    "trim": ("def test_a():\n    assert 1 in snapshot([1, 2])\n", ["trim"]),
+}
+
+
+@st.composite
+def _expect_case(draw, tier):
+    return {"inner": draw(st.sampled_from(sorted(INNER))), "flags": draw(st.sampled_from(["fix", "create", "update", "trim", "create,fix", ""])),
+            "right": draw(st.booleans()), "what": draw(st.sampled_from(["reported_categories", "changed_files"]))}
+
+
+def check_expectations(case):
+    """a test of a user that calls Example(...).run_inline(..., reported_categories=snapshot(X) / changed_files=
+    snapshot(Y)) inside an ordinary session without flags: a wrong expectation must fail that test, a right one
+    must not - whatever flags the *example* runs with"""
+    body, cats = INNER[case["inner"]]
+    inner_src = "from inline_snapshot import snapshot\n\n\n" + body
+    F = set(case["flags"].split(",")) - {""}
+    # what the example really does is taken from a plain run of the helper itself
+    import io
+
+    from inline_snapshot.testing import Example
+
+    with contextlib.redirect_stdout(io.StringIO()), contextlib.redirect_stderr(io.StringIO()):
+        try:
+            ref = Example({"test_x.py": inner_src}).run_inline(["--inline-snapshot=" + case["flags"]] if case["flags"] else [])
+        except Exception as e:
+            return {"nontrivial": False, "classes": ["inner-raises:" + type(e).__name__]}
+    real_cats = sorted(set(cats))
+    changed = {} if ref.files["test_x.py"] == inner_src else {"test_x.py": ref.files["test_x.py"]}
+    if case["what"] == "reported_categories":
+        expect = real_cats if case["right"] else (["create"] if real_cats != ["create"] else ["fix"])
+        kw = f"reported_categories=snapshot({expect!r})"
+    else:
+        expect = changed if case["right"] else {"test_x.py": "something else\n"}
+        kw = f"changed_files=snapshot({expect!r})"
+    args = ["--inline-snapshot=" + case["flags"]] if case["flags"] else []
+    outer = ("from inline_snapshot import snapshot\nfrom inline_snapshot.testing import Example\n\n\n"
+             f"INNER = {inner_src!r}\n\n\ndef test_outer():\n"
+             f"    Example({{'test_x.py': INNER}}).run_inline({args!r}, {kw})\n")
+    with contextlib.redirect_stdout(io.StringIO()), contextlib.redirect_stderr(io.StringIO()):
+        ses = drivers.run_inline({"test_outer.py": outer}, set())
+    if ses.exec_error is not None:
+        raise RuntimeError(f"harness: {ses.exec_error}\n{outer}")
+    exc = ses.test_results.get("test_outer.py::test_outer")
+    if case["right"] and exc is not None:
+        raise Violation("right-expectation-fails", f"{type(exc).__name__}: {exc}\n{outer}")
+    if not case["right"] and exc is None:
+        raise Violation("wrong-expectation-passes",
+                        f"the example runs with {case['flags']!r}; {kw} is wrong but the test of the user passed\n{outer}")
+    return {"nontrivial": not case["right"] and bool(F & {"fix", "create", "update"}),
+            "classes": ["expectations", case["what"], "right" if case["right"] else "wrong"], "sample": {"outer": outer}}
+
+
+ARMS = [HypArm("helper_expectations", _expect_case, check_expectations, budget={"quick": 96, "thorough": 600}),
+        HypArm("three_way", lambda tier: _case(tier), check, signature=signature,
                budget={"quick": 48, "thorough": 3000}, shrink=False)]
